@@ -464,7 +464,9 @@ def main(argv=None):
         except Exception:
             harness_errors.append("evidence_extra: " + traceback.format_exc())
     os.makedirs(os.path.join(VERIF, "evidence"), exist_ok=True)
-    with open(os.path.join(VERIF, "evidence", f"{prop}.json"), "w") as f:
+    partial = bool(args.part) or args.scale != 1 or bool(args.shards)
+    evname = f".partial-{prop}.json" if partial else f"{prop}.json"  # only full runs rewrite the real evidence
+    with open(os.path.join(VERIF, "evidence", evname), "w") as f:
         json.dump(ev, f, indent=1, sort_keys=True, default=repr)
 
     # 4. verdict
